@@ -83,6 +83,16 @@ def run(R):
     # (2) the transition pool and searches, under their representation invariant
     pool = common.names_for(R, 'C09')
     obs += check.verify_functions(R, pool)
+    # (2b) every other function under contract (loops, ghost state: lookups, clocks, printers, leaf functions of the processors):
+    # its safety obligations, under the precondition of its contract -- the functional obligations belong to the other properties
+    check.discharge(R, obs, timeout=60)
+    swept = set(names)
+    rest = [n for n, c in R.reg.REG.items() if n not in swept and n not in pool and not c.transparent and not c.extern and c.model is None
+            and n in R.mod.by_demangled and c.props]
+    before = len(obs)
+    robs = check.verify_functions(R, rest)
+    obs = [o for o in robs if o.kind in symex.SAFETY_KINDS]
+    R.notes.append('functions under contract swept for safety under their contract preconditions: %d (%d safety obligations)' % (len(rest), len(obs)))
     check.discharge(R, obs, timeout=60)
     R.samples.append(dict(value_class_functions=len(names), skipped=[n for n, _ in skipped][:10]))
     # (3) bounded: sanitizers on the real code
